@@ -265,7 +265,29 @@ def run(ctx):
         else:
             detail = "paths %d/%d" % (len(a), len(b))
         ctx.ob("C16.R6", fa, ok, "Prefixed._actualsize (includelength=%s) returns exactly the amount Prefixed._parse consumes (%s)" % (flag, detail), key="probe amount includelength=%s" % flag)
-    ctx.floor("C16.R6", 2)
+    # PrefixedArray's probe: bytes of the count field plus count elements of the element's size -- what its FocusedSeq expansion consumes
+    mf = M.macros().get("PrefixedArray")
+    if mf is None:
+        raise AnalysisError("anchor vanished: PrefixedArray")
+    cls_ = [c for c in M.closures(mf) if c.name == "_actualsize"]
+    ok, detail = len(cls_) == 1, "closure not found"
+    if ok:
+        ps = [p for p in paths_of(ctx, cls_[0]) if p.returns]
+        ok = len(ps) == 1
+        if ok:
+            p = ps[0]
+            t = Trace(p, STREAM)
+            got = t.val(p.retval)
+            cf = [e for e in p.events if e.kind == "SUB" and e["m"] in ("_parse", "_parsereport") and e["stream"] == STREAM]
+            sz = [e for e in p.events if e.kind == "SUB" and e["m"] == "_sizeof"]
+            ok = len(cf) == 1 and len(sz) == 1 and cf[0]["target"][1] == "countfield" and sz[0]["target"][1] == "subcon"
+            if ok:
+                d = [k for k, e in t.deltas.items() if e is cf[0]]
+                want = N.mk_add(d[0], N.mk_mul(cf[0]["res"], sz[0]["res"])) if d else None
+                ok = want is not None and got == want and t.final == N.mk_add(P0(STREAM), d[0])
+            detail = "returns %s" % N.show(got)
+    ctx.ob("C16.R6", cls_[0] if cls_ else mf, ok, "PrefixedArray._actualsize returns the bytes the count field took plus count * sizeof(element) -- independent of where the array starts (%s)" % detail, key="PrefixedArray probe amount")
+    ctx.floor("C16.R6", 3)
 
     # ---------------------------------------------------------------- R4 clones
     def sigset(cls, meth, drop_discard=False):
